@@ -10,7 +10,8 @@ MSG = {
     2: "MSG2 cannot find symbol",
     3: "MSG3 KNOWNISSUE unreachable statement",
     4: "MSG4 incompatible types: Map<String,? extends List<Foo>> cannot be converted to 'Bar': expected (x) => y",
-    5: "MSG5 incompatible types: java.lang.Object cannot be converted to Thread",
+    # ordinary diagnostics may mention class names of the platform, also those of errors a crashing compiler would throw
+    5: "MSG5 incompatible types: java.lang.Object cannot be converted to Thread (see java.lang.StackOverflowError)",
     6: "MSG6 OTHERISSUE variable might not have been initialized",
 }
 DETAIL = {2: "  symbol:   variable bar\n  location: class Main\n"}
@@ -90,8 +91,10 @@ def render(lang, cs, root=ROOT):
                            "\tat org.codehaus.groovy.control.CompilationUnit.doPhaseOperation(CompilationUnit.java:905)\n")
         elif lang == "scala":
             if k == "err":
-                out.append("-- [E007] Type Mismatch Error: %s:3:17 --------------------\n3 |  val x: Int = bar\n  |               ^^^\n  |               %s\n"
-                           % (p, m.replace("-", " ")))
+                # scalac 3 prints an error id for most diagnostics ("-- [E007] Type Mismatch Error: f:l:c ---") and none for others ("-- Error: f:l:c ---")
+                head = "-- [E007] Type Mismatch Error:" if c["m"] % 2 else "-- Error:"
+                out.append("%s %s:3:17 --------------------\n3 |  val x: Int = bar\n  |               ^^^\n  |               %s\n"
+                           % (head, p, m.replace("-", " ")))
             elif k == "warn":
                 out.append("-- Warning: %s:5:2 ----------------\n5 |  foo\n  |  ^\n  |  A pure expression does nothing in statement position\n" % p)
             elif k == "note":
